@@ -11,17 +11,34 @@ import PyGqlModel.Props.C06_skip
 import PyGqlModel.Props.C06_input
 import PyGqlModel.Props.C06_ctx
 import PyGqlModel.Props.C06_spreads
+import PyGqlModel.Props.C06_vars
+import PyGqlModel.Props.C06_frags
+import PyGqlModel.Props.C06_cycles3
 namespace PyGql.Props.C06
 open PyGql PyGql.Validate PyGql.Validate.Spec
 
 def ProvedTyped : List Rule :=
   [.fieldsOnCorrectType, .scalarLeafs, .knownArgumentNames, .providedRequiredArguments, .fragmentsOnCompositeTypes,
-   .uniqueInputFieldNames, .knownDirectives]
+   .uniqueInputFieldNames, .knownDirectives, .noUnusedFragments]
 /-- rules whose specification predicate depends on the ORDER of definitions when fragment names are not unique
     (the last definition of a name wins) -/
 def ProvedOrder : List Rule := [.possibleFragmentSpreads]
+/-- the variable rules (val2, Props/C06_vars.lean): proved for the code with the fix commits of V3 / V4 -/
+def ProvedVars : List Rule :=
+  [.uniqueVariableNames, .noUndefinedVariables, .noUnusedVariables, .variablesInAllowedPosition]
 def ProvedPermDefs : List Rule := Proved ++ ProvedTyped
-def ProvedAll : List Rule := ProvedPermDefs ++ ProvedOrder
+/-- proved for documents with unique, non-empty fragment names -/
+def ProvedCyc : List Rule := [.noFragmentCycles]
+def ProvedAll : List Rule := ProvedPermDefs ++ ProvedOrder ++ ProvedVars ++ ProvedCyc
+
+/-- the variants of the validator the uniform theorems speak about: the variable collector of /repo HEAD
+    (fix commit 160f78c). `Fixes.all` satisfies it; the harness checks on every run that the tree under test does -/
+def HeadVars (fx : Fixes) : Prop := fx.v3 = true ∧ fx.v4 = true ∧ fx.v11 = true
+
+theorem headVars_all : HeadVars Fixes.all := ⟨rfl, rfl, rfl⟩
+
+/-- what the parser guarantees and no rule checks: fragment names are not empty -/
+def NamesNonEmpty (d : Doc) : Prop := ∀ f ∈ Spec.fragNames d, f ≠ ""
 
 def SpecAll (r : Rule) (s : SchemaD) (fx : Fixes) (d : Doc) : Prop :=
   match r with
@@ -32,18 +49,25 @@ def SpecAll (r : Rule) (s : SchemaD) (fx : Fixes) (d : Doc) : Prop :=
   | .fragmentsOnCompositeTypes => Spec.fragmentsOnCompositeTypes s d
   | .uniqueInputFieldNames => Spec.uniqueInputFieldNames d
   | .knownDirectives => Spec.knownDirectives s d
+  | .noUnusedFragments => Spec.everyFragmentSpreadSomewhere d
   | .possibleFragmentSpreads => Spec.possibleFragmentSpreads s fx d
+  | .uniqueVariableNames => Spec.uniqueVariableNames d
+  | .noUndefinedVariables => Spec.noUndefinedVariables d
+  | .noUnusedVariables => Spec.noUnusedVariables d
+  | .variablesInAllowedPosition => Spec.variablesInAllowedPosition s d
+  | .noFragmentCycles => Spec.noFragmentCycles d
   | r => SpecOf r s d
 
-theorem rule_iff_all (s : SchemaD) (fx : Fixes) (d : Doc) (r : Rule) (hr : r ∈ ProvedAll) :
+theorem rule_iff_all (s : SchemaD) (fx : Fixes) (hfx : HeadVars fx) (d : Doc) (hne : NamesNonEmpty d)
+    (hnd : (Spec.fragNames d).Nodup) (r : Rule) (hr : r ∈ ProvedAll) :
     Silent s fx r d ↔ SpecAll r s fx d := by
   simp only [ProvedAll, ProvedPermDefs, List.mem_append] at hr
-  rcases hr with (hr | hr) | hr
+  rcases hr with (((hr | hr) | hr) | hr) | hr
   · have := rule_iff s fx d r hr
     simp only [Proved, List.mem_cons, List.not_mem_nil, or_false] at hr
     rcases hr with rfl | rfl | rfl | rfl | rfl | rfl | rfl | rfl | rfl | rfl <;> exact this
   · simp only [ProvedTyped, List.mem_cons, List.not_mem_nil, or_false] at hr
-    rcases hr with rfl | rfl | rfl | rfl | rfl | rfl | rfl
+    rcases hr with rfl | rfl | rfl | rfl | rfl | rfl | rfl | rfl
     · exact rule_fields_on_correct_type_iff s fx d
     · exact rule_scalar_leafs_iff s fx d
     · exact rule_known_argument_names_iff s fx d
@@ -51,31 +75,67 @@ theorem rule_iff_all (s : SchemaD) (fx : Fixes) (d : Doc) (r : Rule) (hr : r ∈
     · exact rule_fragments_on_composite_types_iff s fx d
     · exact rule_unique_input_field_names_iff s fx d
     · exact rule_known_directives_iff s fx d
+    · exact rule_no_unused_fragments_iff_implemented s fx d
   · simp only [ProvedOrder, List.mem_cons, List.not_mem_nil, or_false] at hr
     subst hr
     exact rule_possible_fragment_spreads_iff s fx d
+  · simp only [ProvedVars, List.mem_cons, List.not_mem_nil, or_false] at hr
+    rcases hr with rfl | rfl | rfl | rfl
+    · exact rule_unique_variable_names_iff s fx d
+    · exact rule_no_undefined_variables_iff s fx hfx.2.1 d
+    · exact rule_no_unused_variables_iff s fx hfx.2.1 d
+    · exact rule_variables_in_allowed_position_iff s fx hfx.1 hfx.2.1 d
+  · simp only [ProvedCyc, List.mem_cons, List.not_mem_nil, or_false] at hr
+    subst hr
+    exact rule_no_fragment_cycles_iff s fx hfx.2.2 d hnd hne
 
-/-- **verdict_iff** for the conjunction of the 18 rules proved -/
-theorem verdict_iff_all_partial (s : SchemaD) (fx : Fixes) (d : Doc) :
-    (∀ r ∈ ProvedAll, Silent s fx r d) ↔ (∀ r ∈ ProvedAll, SpecAll r s fx d) :=
-  forall_congr' fun r => forall_congr' fun hr => rule_iff_all s fx d r hr
+/-- the rules of `ProvedPermDefs` need no hypothesis on `fx` -/
+theorem rule_iff_permdefs (s : SchemaD) (fx : Fixes) (d : Doc) (r : Rule) (hr : r ∈ ProvedPermDefs) :
+    Silent s fx r d ↔ SpecAll r s fx d := by
+  simp only [ProvedPermDefs, List.mem_append] at hr
+  rcases hr with hr | hr
+  · have := rule_iff s fx d r hr
+    simp only [Proved, List.mem_cons, List.not_mem_nil, or_false] at hr
+    rcases hr with rfl | rfl | rfl | rfl | rfl | rfl | rfl | rfl | rfl | rfl <;> exact this
+  · simp only [ProvedTyped, List.mem_cons, List.not_mem_nil, or_false] at hr
+    rcases hr with rfl | rfl | rfl | rfl | rfl | rfl | rfl | rfl
+    · exact rule_fields_on_correct_type_iff s fx d
+    · exact rule_scalar_leafs_iff s fx d
+    · exact rule_known_argument_names_iff s fx d
+    · exact rule_provided_required_arguments_iff s fx d
+    · exact rule_fragments_on_composite_types_iff s fx d
+    · exact rule_unique_input_field_names_iff s fx d
+    · exact rule_known_directives_iff s fx d
+    · exact rule_no_unused_fragments_iff_implemented s fx d
 
-/-- **attribution** over the 18 rules proved (on the rules run alone; see `attribution_partial`) -/
-theorem attribution_all_partial (s : SchemaD) (fx : Fixes) (d : Doc) (r : Rule) (hr : r ∈ ProvedAll)
+/-- **verdict_iff** for the conjunction of the 24 rules proved -/
+theorem verdict_iff_all_partial (s : SchemaD) (fx : Fixes) (hfx : HeadVars fx) (d : Doc) (hne : NamesNonEmpty d) :
+    (∀ r ∈ ProvedAll, Silent s fx r d) ↔ (∀ r ∈ ProvedAll, SpecAll r s fx d) := by
+  have huf : Rule.uniqueFragmentNames ∈ ProvedAll := by decide
+  constructor
+  · intro h
+    have hnd : (Spec.fragNames d).Nodup := (rule_unique_fragment_names_iff s fx d).mp (h _ huf)
+    exact fun r hr => (rule_iff_all s fx hfx d hne hnd r hr).mp (h r hr)
+  · intro h
+    have hnd : (Spec.fragNames d).Nodup := h _ huf
+    exact fun r hr => (rule_iff_all s fx hfx d hne hnd r hr).mpr (h r hr)
+
+/-- **attribution** over the 24 rules proved (on the rules run alone; see `attribution_partial`) -/
+theorem attribution_all_partial (s : SchemaD) (fx : Fixes) (hfx : HeadVars fx) (d : Doc) (hne : NamesNonEmpty d)
+    (hnd : (Spec.fragNames d).Nodup) (r : Rule) (hr : r ∈ ProvedAll)
     (hbad : ¬ SpecAll r s fx d) (hothers : ∀ r' ∈ ProvedAll, r' ≠ r → SpecAll r' s fx d) :
     0 < E (alone s fx r d) ∧ ∀ r' ∈ ProvedAll, r' ≠ r → E (alone s fx r' d) = 0 := by
-  refine ⟨Nat.pos_of_ne_zero fun h0 => hbad ((rule_iff_all s fx d r hr).mp h0), fun r' hr' hne => ?_⟩
-  exact (rule_iff_all s fx d r' hr').mpr (hothers r' hr' hne)
+  refine ⟨Nat.pos_of_ne_zero fun h0 => hbad ((rule_iff_all s fx hfx d hne hnd r hr).mp h0), fun r' hr' hdiff => ?_⟩
+  exact (rule_iff_all s fx hfx d hne hnd r' hr').mpr (hothers r' hr' hdiff)
 
 theorem typedNodes_perm (s : SchemaD) {d d' : Doc} (h : d.defs.Perm d'.defs) (p : Node × View) :
     p ∈ typedNodes s d ↔ p ∈ typedNodes s d' := (h.flatMap_right _).mem_iff
 
-/-- **perm_definitions** for 17 of the 18 rules proved (`PossibleFragmentSpreads` reads the type condition of the LAST
+/-- **perm_definitions** for 17 of the 24 rules proved (`PossibleFragmentSpreads` reads the type condition of the LAST
     definition of a fragment name, so with duplicate fragment names its predicate depends on the order) -/
 theorem perm_definitions_all_partial (s : SchemaD) (fx : Fixes) {d d' : Doc} (h : d.defs.Perm d'.defs) (r : Rule)
     (hr : r ∈ ProvedPermDefs) : Silent s fx r d ↔ Silent s fx r d' := by
-  have hr' : r ∈ ProvedAll := by simp only [ProvedAll, List.mem_append]; exact Or.inl hr
-  rw [rule_iff_all s fx d r hr', rule_iff_all s fx d' r hr']
+  rw [rule_iff_permdefs s fx d r hr, rule_iff_permdefs s fx d' r hr]
   simp only [ProvedPermDefs, List.mem_append] at hr
   rcases hr with hr | hr
   · have := spec_perm_definitions s h r hr
@@ -91,7 +151,7 @@ theorem perm_definitions_all_partial (s : SchemaD) (fx : Fixes) {d d' : Doc} (h 
       · rintro ⟨_, H⟩; exact ⟨hP _, fun n ⟨x, hx, hm⟩ => H n ⟨x, h.mem_iff.mp hx, hm⟩⟩
     have hg : ∀ {X : Type} (down : Node → X → X) (x0 : X) (p : Node × X), p ∈ gnDoc down x0 d ↔ p ∈ gnDoc down x0 d' :=
       fun down x0 p => (h.flatMap_right _).mem_iff
-    rcases hr with rfl | rfl | rfl | rfl | rfl | rfl | rfl
+    rcases hr with rfl | rfl | rfl | rfl | rfl | rfl | rfl | rfl
     · simp only [SpecAll, Spec.fieldsOnCorrectType, hm]
     · simp only [SpecAll, Spec.scalarLeafs, hm]
     · simp only [SpecAll, Spec.knownArgumentNames, hm]
@@ -100,6 +160,27 @@ theorem perm_definitions_all_partial (s : SchemaD) (fx : Fixes) {d d' : Doc} (h 
       exact and_congr (hnodes _ (fun _ => by simp)) (hnodes _ (fun _ => by simp))
     · exact hnodes _ (fun _ => by simp)
     · simp only [SpecAll, Spec.knownDirectives, hg]
+    · simp only [SpecAll, Spec.everyFragmentSpreadSomewhere]
+      have hmem : ∀ n, n ∈ nodes d ↔ (n = .document d ∨ n ∈ d.defs.flatMap defNodes) := fun n => by simp [nodes]
+      have hmem' : ∀ n, n ∈ nodes d' ↔ (n = .document d' ∨ n ∈ d'.defs.flatMap defNodes) := fun n => by simp [nodes]
+      have hfl : ∀ n, n ∈ d.defs.flatMap defNodes ↔ n ∈ d'.defs.flatMap defNodes := fun n => (h.flatMap_right _).mem_iff
+      constructor
+      · intro H n hn name on dirs e
+        subst e
+        rcases (hmem' _).mp hn with h0 | h0
+        · cases h0
+        · obtain ⟨m, hm', ds, rfl⟩ := H _ ((hmem _).mpr (Or.inr ((hfl _).mpr h0))) name on dirs rfl
+          rcases (hmem _).mp hm' with h1 | h1
+          · cases h1
+          · exact ⟨_, (hmem' _).mpr (Or.inr ((hfl _).mp h1)), ds, rfl⟩
+      · intro H n hn name on dirs e
+        subst e
+        rcases (hmem _).mp hn with h0 | h0
+        · cases h0
+        · obtain ⟨m, hm', ds, rfl⟩ := H _ ((hmem' _).mpr (Or.inr ((hfl _).mp h0))) name on dirs rfl
+          rcases (hmem' _).mp hm' with h1 | h1
+          · cases h1
+          · exact ⟨_, (hmem _).mpr (Or.inr ((hfl _).mpr h1)), ds, rfl⟩
 
 /-- every rule of the chain is either proved or listed in `Spec.Unproved` -/
 theorem proved_all_or_listed : ∀ r ∈ Rule.all, r ∈ ProvedAll ∨ r.name ∈ Spec.Unproved := by decide
